@@ -184,7 +184,9 @@ def merge_evidence(prop, cfg, tier, seed, results, wall, violations, known_lines
             if len(samples) < 6:
                 samples.append(smp)
         for k, v in (s.get("extra") or {}).items():
-            if isinstance(v, (int, float)) and not isinstance(v, bool):
+            if k in cfg.get("extra_max", []):
+                extras[k] = max(extras.get(k, 0), v)
+            elif isinstance(v, (int, float)) and not isinstance(v, bool):
                 extras[k] = extras.get(k, 0) + v
             else:
                 extras.setdefault(k, v)
